@@ -630,3 +630,47 @@ def gen_percall(repo):
             f"def dictScratchPerCall : Bool := {b(scratch_local2)}\n"
             f"def moduleLevelBuffers : List String := [{', '.join(chr(34) + m + chr(34) for m in mod_bufs)}]\n"
             "end PqV.Gen.PerCall\n")
+
+
+@register("RangeIndex")
+def gen_rangeindex(repo):
+    """api.py, ParquetFile.pre_allocate: the RangeIndex regenerated from the pandas metadata
+    (`RangeIndex(start=ic['start'], stop=<expr>, step=ic['step'])[:size]`) - the `stop` expression, as a Lean function."""
+    import ast
+    src = open(os.path.join(repo, "fastparquet", "api.py")).read()
+    tree = ast.parse(src)
+    calls = [n for n in ast.walk(tree) if isinstance(n, ast.Call) and getattr(n.func, "id", getattr(n.func, "attr", None)) == "RangeIndex"
+             and any(k.arg == "stop" for k in n.keywords)]
+    if len(calls) != 1:
+        raise ValueError(f"expected one RangeIndex(start=, stop=, step=) call in api.py, found {len(calls)}")
+    kw = {k.arg: k.value for k in calls[0].keywords}
+
+    def is_ic(node, key):
+        return (isinstance(node, ast.Subscript) and isinstance(node.value, ast.Name) and node.value.id == "ic"
+                and isinstance(node.slice, ast.Constant) and node.slice.value == key)
+
+    if not is_ic(kw.get("start"), "start") or not is_ic(kw.get("step"), "step"):
+        raise ValueError("RangeIndex start/step are not ic['start'] / ic['step']")
+
+    def tr(node):
+        if is_ic(node, "start"):
+            return "start"
+        if is_ic(node, "step"):
+            return "step"
+        if isinstance(node, ast.Name) and node.id == "size":
+            return "(size : Int)"
+        if isinstance(node, ast.Constant) and isinstance(node.value, int):
+            return f"({node.value} : Int)"
+        if isinstance(node, ast.BinOp) and isinstance(node.op, (ast.Add, ast.Sub, ast.Mult)):
+            op = {ast.Add: "+", ast.Sub: "-", ast.Mult: "*"}[type(node.op)]
+            return f"({tr(node.left)} {op} {tr(node.right)})"
+        raise ValueError("unsupported expression in RangeIndex stop: " + ast.dump(node)[:120])
+
+    # the slice applied to the regenerated index: [:size]
+    sliced = any(isinstance(n, ast.Subscript) and n.value is calls[0] and isinstance(n.slice, ast.Slice) and n.slice.lower is None
+                 and isinstance(n.slice.upper, ast.Name) and n.slice.upper.id == "size" for n in ast.walk(tree))
+    return ("-- REGENERATED from fastparquet/api.py (pre_allocate: the RangeIndex rebuilt from pandas metadata) - do not edit\n"
+            "namespace PqV.Gen.RangeIndex\n"
+            f"def stopExpr (start step : Int) (size : Nat) : Int := {tr(kw['stop'])}\n"
+            f"def slicedToSize : Bool := {'true' if sliced else 'false'}\n"
+            "end PqV.Gen.RangeIndex\n")
